@@ -72,7 +72,7 @@ def run_property(prop, tier, seed, opts):
         return 3
 
     # ---- 1. L1: generate + discharge ---------------------------------------
-    timeouts = (10, 20, 40) if tier == "quick" else (30, 60, 120)
+    timeouts = (20, 20, 40) if tier == "quick" else (40, 60, 120)
     results, tm = V.verify_units(l1, D.REPO, outdir, timeouts=timeouts, group=getattr(opts, "group", None))
     n_obl = n_dis = 0
     by_solver = {}
